@@ -2103,6 +2103,10 @@ impl Lexer<'_> {
             '%' => {
                 match self.cursor.peek_next() {
                     '*' => {
+                        // A checkpoint set by a preceding macro string must not
+                        // stay live across the comment: the next name part sets its own
+                        self.clear_checkpoint();
+
                         self.start_token();
                         self.lex_macro_comment();
                     }
